@@ -106,4 +106,23 @@ def spec (c : Call) : Desc :=
     else scalarDesc c.kind .helmholtz c.layer [c.kre, c.kim]
   | .maxwell => maxwellDesc c.kind c.layer [c.kre, c.kim]
 
+/-! ### `select_numba_kernels`: from a descriptor to the assembly function and the kernel function -/
+
+inductive Mode | regular | singular | potential
+  deriving DecidableEq, Repr
+
+/-- a function of `numba_kernels.py`, identified by what it assembles / evaluates and in which mode; the translator
+parses the function's `__name__` (e.g. `maxwell_efield_regular_assembler`, `laplace_double_layer_singular`,
+`helmholtz_far_field_single_layer`) into this and checks that the selected object IS the module attribute of that name -/
+structure Selected where
+  asmFn : Asm × Mode
+  kernFn : Name × Mode
+  deriving DecidableEq, Repr
+
+/-- THE SPECIFICATION of `select_numba_kernels(descriptor, mode)`: the assembly function of the descriptor's assembly type
+in the requested mode, and the kernel function of the descriptor's kernel type — the singular variant for the singular
+assembler, the regular one otherwise (potentials evaluate the regular kernels) -/
+def selectSpec (d : Desc) (m : Mode) : Selected :=
+  ⟨(d.assemblyType, m), (d.kernelType, if m = .singular then .singular else .regular)⟩
+
 end BemppVerif.Model.Ctor
